@@ -38,6 +38,26 @@ fn templates(n: usize) -> Vec<Tmpl> {
         t("R4", 5, "G", false, None, false),
         t("R7", 0, "MAIN", false, None, true),
     ];
+    if n >= 100 {
+        // attribute combinations: agenda group x activation group x lock-on-active (x no-loop in MAIN)
+        return vec![
+            t("C0", 0, "MAIN", false, None, false),
+            t("C1", 5, "MAIN", false, Some("X"), false),
+            t("C2", 0, "MAIN", false, None, true),
+            t("C3", 5, "MAIN", false, Some("X"), true),
+            t("C4", 5, "G", false, None, false),
+            t("C5", 0, "G", false, Some("X"), false),
+            t("C6", 5, "G", false, None, true),
+            t("C7", 0, "G", false, Some("X"), true),
+            t("C8", 0, "MAIN", true, Some("X"), false),
+            t("C9", 5, "MAIN", true, None, true),
+            t("C10", 0, "MAIN", true, Some("X"), true),
+            t("C11", 5, "G", true, Some("Y"), true),
+        ]
+        .into_iter()
+        .take(n - 100)
+        .collect();
+    }
     all.into_iter().take(n).collect()
 }
 
@@ -467,7 +487,9 @@ fn run_termination(opts: &Opts) -> Report {
             Outcome::Abort(m) => rep.violation(Violation { class: "fire_all_aborted".into(), detail: format!("{}: {}", ENGINES[k / ns], m), tags: vec![], case: describe(k) }),
         }
     }
-    if done.len() != n {
+    if let Some(t) = isolate::truncated() {
+        rep.cap_hit = Some(t);
+    } else if done.len() != n {
         rep.notes.push(format!("MACHINERY: {} of {} termination cases produced no result", n - done.len(), n));
     }
     rep.count("nontrivial", distinct.len() as u64);
@@ -479,8 +501,8 @@ fn run_termination(opts: &Opts) -> Report {
 pub fn run(opts: &Opts) -> Vec<Report> {
     let mut out = vec![];
     let plan: Vec<(&str, usize, usize)> = match opts.tier {
-        Tier::Quick => vec![("agenda_8t_len6", 8, 6), ("agenda_5t_len7", 5, 7)],
-        Tier::Thorough => vec![("agenda_8t_len7", 8, 7), ("agenda_5t_len9", 5, 9)],
+        Tier::Quick => vec![("agenda_8t_len6", 8, 6), ("agenda_5t_len7", 5, 7), ("agenda_combined_attributes_12t_len5", 112, 5), ("agenda_combined_attributes_8t_len6", 108, 6)],
+        Tier::Thorough => vec![("agenda_8t_len7", 8, 7), ("agenda_5t_len9", 5, 9), ("agenda_combined_attributes_12t_len6", 112, 6), ("agenda_combined_attributes_8t_len7", 108, 7)],
     };
     for (name, nt, depth) in plan {
         if !crate::props::wants(opts, name) {
@@ -492,7 +514,7 @@ pub fn run(opts: &Opts) -> Vec<Report> {
         let mut r = explore::explore(&move || Sys::new(nt), &cfg);
         let div = r.outcomes.contains(&0xD17E);
         r.count("divergences_from_exact_model_without_clause_violation", div as u64);
-        r.bound = format!("all histories of length <= {} over add_activation({} templates: salience 0/5, groups MAIN/G, no-loop, activation group X, lock-on-active) / get_next_activation / mark_rule_fired / set_focus / reset_fired_flags / clear; creation instants strictly increasing", depth, nt);
+        r.bound = format!("all histories of length <= {} over add_activation({} templates: salience 0/5, groups MAIN/G, no-loop, activation group X, lock-on-active{}) / get_next_activation / mark_rule_fired / set_focus / reset_fired_flags / clear; creation instants strictly increasing", depth, if nt >= 100 { nt - 100 } else { nt }, if nt >= 100 { ", in combination on one activation" } else { "" });
         out.push(r);
     }
     if crate::props::wants(opts, "termination") {
